@@ -42,6 +42,7 @@ type Config struct {
 	AvoidKnown  bool               `json:"avoidKnown"` // do not generate the shapes of listed known findings
 	SilentVal   int                `json:"silentVal,omitempty"`   // actor index + 1 of a genesis validator that owns no coins (not among the asset holders) and never signs
 	FreshHeavy  bool               `json:"freshHeavy,omitempty"`  // most transfers go to addresses never seen before (hundreds of accounts per world)
+	BoundaryTie bool               `json:"boundaryTie,omitempty"` // scripted: a candidate ties with the weakest validator (different stake counts, so that the two rankings of the code break the tie differently), mempool checks of stake txs right after BeginBlock, then a stake tx on a tied delegatee
 	RewardCliff int                `json:"rewardCliff,omitempty"` // K > 0: one whale validator and a reward rate at which its owner's claim passes 2^255 after about K blocks (the world ends before anything can reach 2^256)
 }
 
